@@ -239,3 +239,91 @@ Proof.
     { induction plans as [|p ps IH]; intros i; cbn; [reflexivity|]. rewrite IH. reflexivity. }
     rewrite H. apply seq_NoDup.
 Qed.
+
+(* ---- the same for set_attr (send and receive in one call) ---- *)
+Theorem set_attr_fault_surfaces_lemma e :
+  clean e -> Forall calm (ws e) -> raised (ws e) <> [] ->
+  fst (set_attr e) = Exc (last (map snd (raised (ws e))) 0) /\ st (snd (set_attr e)) = DEFAULT /\
+  closed (snd (set_attr e)) = false.
+Proof.
+  intros (Hc & Hst & Hq & Hf & Hn) Hcalm Hne.
+  unfold set_attr. rewrite Hc, Hst. cbn [pst_eqb negb].
+  rewrite (send_fresh _ Hf). rewrite Hq. cbn [app].
+  rewrite (recv_after _ Hf Hcalm). unfold finish. rewrite (count_false_msgs _ Hcalm).
+  assert (Hz : Nat.eqb (length (raised (ws e))) 0 = false) by (destruct (raised (ws e)); [congruence | reflexivity]).
+  rewrite Hz.
+  destruct (drain_ok (raised (ws e)) (map emptied (ws e)) 0 [] (raised_NoDup _ Hn)) as (l' & Hd).
+  { rewrite Forall_forall. intros w' Hin. apply in_map_iff in Hin as (w & <- & Hin).
+    rewrite Forall_forall in Hf, Hcalm. destruct (after_calm w (Hf w Hin) (Hcalm w Hin)) as (Hdw & _).
+    unfold emptied, set_outq. cbn. congruence. }
+  rewrite app_nil_r in Hd. rewrite Hd. cbn. auto.
+Qed.
+
+Theorem set_attr_healthy_lemma e :
+  clean e -> Forall (fun w => next w = Normal) (ws e) ->
+  fst (set_attr e) = Ok /\ st (snd (set_attr e)) = DEFAULT /\ ws (snd (set_attr e)) = map emptied (ws e).
+Proof.
+  intros (Hc & Hst & Hq & Hf & Hn) Hnorm.
+  assert (Hcalm : Forall calm (ws e)) by (eapply Forall_impl; [|exact Hnorm]; intros w H; left; exact H).
+  assert (Hr : raised (ws e) = []).
+  { clear -Hnorm. induction Hnorm as [|w l Hw _ IH]; [reflexivity|]. unfold raised in *. cbn.
+    unfold raised1 at 1. rewrite Hw. exact IH. }
+  unfold set_attr. rewrite Hc, Hst. cbn [pst_eqb negb].
+  rewrite (send_fresh _ Hf). rewrite Hq, Hr. cbn [app].
+  rewrite (recv_after _ Hf Hcalm). unfold finish. rewrite (count_false_msgs _ Hcalm), Hr. cbn. auto.
+Qed.
+
+(* ---- call_async of a forbidden name: every worker raises ValueError itself, call_wait re-raises it ---- *)
+Definition rejected (w : worker) : worker := fst (react CBad w []).
+
+Lemma send_bad l : Forall fresh l -> forall q,
+  send_all CBad l q = (None, map rejected l, q ++ map (fun w => (idx w, EValueError)) l).
+Proof.
+  induction 1 as [|w l (Hs & Hd & _ & _) _ IH]; intros q; cbn [send_all map].
+  - rewrite app_nil_r. reflexivity.
+  - rewrite Hd. rewrite Hs. cbn [is_dead]. unfold deliver. rewrite Hs.
+    rewrite (react_q CBad w q). cbn [react snd]. rewrite IH. rewrite <- app_assoc. reflexivity.
+Qed.
+
+Lemma recv_bad l : Forall fresh l -> forall q,
+  recv_all (map rejected l) q = (None, map (fun w => set_outq (rejected w) []) l, q, map (fun _ => (false, 0)) l).
+Proof.
+  induction 1 as [|w l (Hs & Hd & _ & Ho) _ IH]; intros q; cbn [map recv_all]; [reflexivity|].
+  unfold recv1, rejected at 1 2 3. cbn [react fst dropped outq]. rewrite Hd, Ho. cbn [app]. rewrite IH. reflexivity.
+Qed.
+
+Lemma last_const {A B} (c : B) (l : list A) d : l <> [] -> last (map (fun _ => c) l) d = c.
+Proof.
+  induction l as [|x l IH]; intros H; [congruence|]. cbn [map]. rewrite last_cons.
+  destruct l as [|y l]; [reflexivity|]. rewrite <- (IH ltac:(discriminate)) at 2. cbn [map]. rewrite !last_cons. reflexivity.
+Qed.
+
+Theorem forbidden_call_surfaces_lemma fin e :
+  clean e -> ws e <> [] ->
+  fst (call_bad e) = Ok /\
+  let r := wait KCall fin (snd (call_bad e)) in
+  fst r = Exc EValueError /\ st (snd r) = DEFAULT /\ closed (snd r) = false.
+Proof.
+  intros (Hc & Hst & Hq & Hf & Hn) Hne.
+  unfold call_bad, async_cmd. rewrite Hc, Hst. cbn [pst_eqb negb].
+  rewrite (send_bad _ Hf). rewrite Hq. cbn [app fst snd]. split; [reflexivity|].
+  unfold wait. cbn [closed st wst]. cbn [pst_eqb negb].
+  unfold wait_core. cbn [ws eq].
+  assert (Hp : poll_all (map rejected (ws e)) = true).
+  { unfold poll_all. clear -Hf. induction Hf as [|w l (Hs & Hd & _ & Ho) _ IH]; cbn [map forallb]; [reflexivity|].
+    rewrite IH. unfold pollable, rejected. cbn. rewrite Hd, Ho. reflexivity. }
+  rewrite Hp, andb_false_r. rewrite (recv_bad _ Hf). unfold finish.
+  set (es := map (fun w => (idx w, EValueError)) (ws e)).
+  assert (Hcnt : count_false (map (fun _ : worker => (false, 0)) (ws e)) = length es).
+  { unfold es, count_false. rewrite map_length. clear. induction (ws e); cbn; auto. }
+  rewrite Hcnt.
+  assert (Hz : Nat.eqb (length es) 0 = false) by (unfold es; destruct (ws e); [congruence | reflexivity]).
+  rewrite Hz.
+  assert (Hnd : NoDup (map fst es)) by (unfold es; rewrite map_map; cbn; exact Hn).
+  destruct (drain_ok es (map (fun w => set_outq (rejected w) []) (ws e)) 0 [] Hnd) as (l' & Hd).
+  { rewrite Forall_forall. intros w' Hin. apply in_map_iff in Hin as (w & <- & Hin).
+    rewrite Forall_forall in Hf. destruct (Hf w Hin) as (_ & Hdw & _). unfold set_outq, rejected. cbn. congruence. }
+  rewrite app_nil_r in Hd. rewrite Hd. cbn [fst snd st closed].
+  repeat split; auto. f_equal.
+  unfold es. rewrite map_map. cbn [snd]. apply last_const. exact Hne.
+Qed.
